@@ -204,6 +204,7 @@ where
         };
 
         let policy = Arc::new(policy);
+        let stopped = Arc::new(AtomicBool::new(false));
         CacheProcessor::new(
             100000,
             self.inner.ignore_internal_cost,
@@ -215,6 +216,7 @@ where
             clear_rx,
             metrics.clone(),
             callback.clone(),
+            stopped.clone(),
         )
         .spawn();
 
@@ -229,6 +231,7 @@ where
             stop_tx,
             clear_tx,
             is_closed: Arc::new(AtomicBool::new(false)),
+            stopped,
             coster,
             metrics,
             _marker: Default::default(),
@@ -255,7 +258,19 @@ pub(crate) enum Item<V> {
         key: u64,
         conflict: u64,
     },
-    Wait(WaitGroup),
+    Wait(WaitSignal),
+}
+
+/// What `wait()` queues. The waiter is released when the marker is dropped, wherever that
+/// happens: applied by the processor, drained by `clear()`, refused by a full buffer, or
+/// destroyed together with the channel when the processor stops. No path can leave a waiter
+/// blocked for ever.
+pub(crate) struct WaitSignal(WaitGroup);
+
+impl Drop for WaitSignal {
+    fn drop(&mut self) {
+        self.0.done();
+    }
 }
 
 impl<V> Item<V> {
@@ -303,6 +318,8 @@ pub(crate) struct CacheProcessor<V, U, CB, S> {
     pub(crate) ignore_internal_cost: bool,
     pub(crate) item_size: usize,
     pub(crate) cleanup_duration: Duration,
+    /// set when the loop is about to return (see `handle_stop_event`)
+    pub(crate) stopped: Arc<AtomicBool>,
 }
 
 pub(crate) struct CacheCleaner<'a, V, U, CB, S> {
@@ -360,6 +377,9 @@ pub struct Cache<
     pub(crate) key_to_hash: Arc<KH>,
 
     pub(crate) is_closed: Arc<AtomicBool>,
+
+    /// the processor has stopped (or is stopping): nobody will take a `Wait` marker out of the insert buffer any more
+    pub(crate) stopped: Arc<AtomicBool>,
 
     pub(crate) coster: Arc<C>,
 
@@ -499,14 +519,19 @@ where
         crate::verif::yield_point("open_checked");
 
         let wg = WaitGroup::new();
-        let wait_item = Item::Wait(wg.add(1));
+        let wait_item = Item::Wait(WaitSignal(wg.add(1)));
         self.insert_buf_tx
             .try_send(wait_item)
             .map(|_| {
                 #[cfg(transparencies_stretto_verif)]
                 crate::verif::yield_point("block:wait");
             })
-            .map(|_| wg.wait())
+            .map(|_| {
+                // If the processor has stopped since, nobody will take the marker out any more.
+                if !self.stopped.load(Ordering::SeqCst) {
+                    wg.wait()
+                }
+            })
             .map_err(|e| CacheError::SendError(format!("cache set buf sender: {}", e)))
     }
 
@@ -642,6 +667,7 @@ where
         clear_rx: UnboundedReceiver<()>,
         metrics: Arc<Metrics>,
         callback: Arc<CB>,
+        stopped: Arc<AtomicBool>,
     ) -> Self {
         let item_size = store.item_size();
         let hasher = store.hasher();
@@ -658,6 +684,7 @@ where
             ignore_internal_cost,
             item_size,
             cleanup_duration,
+            stopped,
         }
     }
 
@@ -686,9 +713,25 @@ where
                         tracing::error!("fail to handle cleanup event: {}", e);
                     }
                 },
-                recv(self.stop_rx) -> _ => return Ok(()),
+                recv(self.stop_rx) -> _ => {
+                    self.handle_stop_event();
+                    return Ok(());
+                },
             }
         })
+    }
+
+    /// The loop is about to return. What is still buffered will never be applied; a `Wait`
+    /// marker among it has to release its waiter, and a receiver that is merely dropped keeps
+    /// its messages for as long as a sender exists. So: raise the flag first (`wait()` looks at
+    /// it after queueing its marker: a marker that comes too late for the sweep below is not
+    /// waited for), then drop what is there.
+    #[inline]
+    pub(crate) fn handle_stop_event(&mut self) {
+        self.stopped.store(true, Ordering::SeqCst);
+        while let Ok(item) = self.insert_buf_rx.try_recv() {
+            drop(item);
+        }
     }
 
     #[inline]
